@@ -37,6 +37,16 @@ add("C12", "MC_Block.tla", "MC_Block_C12_q", ("quick", "thorough"), 900, ["ActP"
 block_cfg("MC_Block_C12_t1", "C12", ALLK, ED, 2, 3, 4, ["p", "q"], ["C12", "C02", "C03"])
 add("C12", "MC_Block.tla", "MC_Block_C12_t1", ("thorough",), 3000, ["ActP", "ActQ", "ActExp"])
 
+# consistency of the definitional layer: indexed recurrences = linear evaluation = folded machines; dec inverts enc
+def ref_cfg(name, bs, maxn):
+    open(os.path.join(HERE, name + ".cfg"), "w").write(
+        "CONSTANTS\n  BS = %d\n  MAXN = %d\nSPECIFICATION Spec\nINVARIANT RefInv\nCHECK_DEADLOCK FALSE\n" % (bs, maxn))
+ref_cfg("MC_Ref_q", 2, 5)
+ref_cfg("MC_Ref_t", 3, 6)
+for prop in ("C02", "C03", "C05", "C01"):
+    add(prop, "MC_Ref.tla", "MC_Ref_q", ("quick", "thorough"), 300, [])
+    add(prop, "MC_Ref.tla", "MC_Ref_t", ("thorough",), 900, [])
+
 # round trip / encryptor-decryptor state agreement (C01), export-import (C09), clone interleavings (C16)
 block_cfg("MC_Block_C01_q", "C01", ["cbc", "cfb", "ige"], ["enc"], 2, 2, 3, ["e", "d"], ["C01", "C09", "C02", "C03"])
 add("C01", "MC_Block.tla", "MC_Block_C01_q", ("quick", "thorough"), 900, ["ActE", "ActD", "ActExp"])
